@@ -9,6 +9,7 @@
 
   The proofs live in Proofs/Lemmas/Tree*.lean; this file restates the results.
 -/
+import Proofs.Lemmas.Misc
 import Proofs.Lemmas.TreeSpec
 
 namespace Xsel.C01
@@ -187,4 +188,23 @@ example : Model.axis sample .descendant [0] = [1, 4, 5, 6, 7, 8] := by decide
 example : Model.axis sample .followingSibling [1] = [8] := by decide
 example : Model.axis sample .following [4, 6] = Spec.axisSet sample .following [4, 6] := by decide
 
+end Xsel.C01
+
+namespace Xsel.C01
+/-- an absolute location path starts from the root of the queried tree wherever it occurs (top level,
+    predicate, function argument): `/` does not look at the context -/
+theorem absolute_from_root (sem : Sem) (c c' : Ctx) :
+    eval sem .root c = .ok (.nodes [0]) ∧ eval sem .root c = eval sem .root c' :=
+  Misc.absolute_from_root sem c c'
+
+/-- `/step` evaluates the same whatever the context node, position and size are -/
+theorem absolute_step_context_free (sem : Sem) (ax : Axis) (t : NodeTest) (c : Ctx) (r : Val) (p s : Nat) :
+    eval sem (.step .root ax t .nil) { c with result := r, pos := p, size := s }
+      = eval sem (.step .root ax t .nil) c :=
+  Misc.absolute_step_context_free sem ax t c r p s
+
+/-- `.` (self::node()) is the identity step of the code's evaluator -/
+theorem self_node_identity (base : Expr) (c : Ctx) (l : List Nat) (h : eval Model.sem base c = .ok (.nodes l)) :
+    eval Model.sem (.step base .self .node .nil) c = .ok (.nodes l) :=
+  Misc.self_node_identity Model.sem rfl rfl base c l h
 end Xsel.C01
